@@ -152,7 +152,8 @@ pub fn read_bookkeeping() -> Result<Bookkeeping, String> {
 impl World {
     pub fn check_bookkeeping(&mut self) -> Result<(), Violation> {
         self.stats.oracle_comparisons += 1;
-        let bk = read_bookkeeping().map_err(|e| violation("C20", "snapshot-unreadable", e))?;
+        // an unreadable snapshot is a harness matter (the state layout changed), never a violation
+        let bk = read_bookkeeping().map_err(|e| violation("HARNESS", "snapshot-unreadable", e))?;
         let model_hashes: BTreeSet<Hash32> = self.tree.nodes.keys().map(|i| self.block(*i).hash).collect();
         let tree_set: BTreeSet<Hash32> = bk.tree_hashes.iter().copied().collect();
         let name = |s: &BTreeSet<Hash32>, w: &World| -> Vec<String> {
